@@ -47,3 +47,9 @@ Definition c_is_unicode (name : option name_arg) : bool := match name with Some 
    Model/CLookup.c_getcache fixes for that unreachable case. *)
 Definition c_is_true (name : option name_arg) : bool :=
   match name with Some (NStr n) => str_truthy n | _ => false end.
+
+(* ---- the METH_VARARGS wrappers of the C lookup classes: LB_x parses (args, kwds) and calls the core
+   function; VB_x (VerifyingBase) must run _verify(self) first.  [w_args]: for each parameter of the core
+   function (after self) the index of the Python-level argument passed for it. *)
+Inductive c_core := CoreLookup | CoreLookup1 | CoreAdapterHook | CoreLookupAll | CoreSubscriptions.
+Record c_wrapper := mkWrap { w_verify : bool; w_core : c_core; w_args : list nat }.
